@@ -152,6 +152,38 @@ def run(ctx: Ctx, tier: str) -> Result:
     else:
         res.fail(Finding("C15.ONCE", cp_.qname, "<for callback in callbacks: callback.process(...)>", cp_.loc(), "completing a context does not run each of its callbacks exactly once"))
 
+    # every opened span / deferred snapshot is handed to exactly one result (-> one callback): results whose process()
+    # yields a callback are attached outside any loop, at most once per run of the action
+    n_att = 0
+    for cls_ in p.classes.values():
+        proc_ = cls_.methods.get("process", [])
+        if not proc_ or not any(k.qname.endswith("action_results.ActionResult") for k in cls_.mro):
+            continue
+        yields_cb = any(r.value is not None and not (isinstance(r.value, ast.Constant) and r.value.value is None)
+                        for f_ in proc_ for r in t.nodes_in(f_, ast.Return))
+        if not yields_cb:
+            continue
+        for f_ in p.functions.values():
+            for c in t.calls_in(f_):
+                if not (isinstance(c.func, ast.Attribute) and c.func.attr == "attach_result" and c.args):
+                    continue
+                made = c.args[0]
+                if isinstance(made, ast.Name):
+                    bs = [b for k, b in t.local_bindings(f_, made.id) if k == "assign"]
+                    made = bs[0][1] if len(bs) == 1 else made
+                if not (isinstance(made, ast.Call) and cls_ in t.resolve_call(made, f_).ctor):
+                    continue
+                n_att += 1
+                lps_ = paths.enclosing_loops(p, c, f_)
+                others = [c2 for c2 in t.calls_in(f_) if c2 is not c and isinstance(c2.func, ast.Attribute) and c2.func.attr == "attach_result" and c2.args
+                          and norm(c2.args[0]) == norm(c.args[0])]
+                if lps_ or others:
+                    res.fail(Finding("C15.ONCE", f_.qname, c, f_.loc(c), "a %s is attached %s: the same spans / snapshot end up in several results, so each is "
+                                     "completed more than once" % (cls_.name, "inside a loop" if lps_ else "more than once")))
+                else:
+                    res.ok("C15.ONCE", {"%s attached once per action" % cls_.name: f_.loc(c)})
+    res.floor("deferred results attached", n_att, 2)
+
     # ---------------- TABLE
     al = cc.lookup("at_location")
     tb = Table(ctx, al)
